@@ -1,0 +1,24 @@
+//go:build verif
+
+package fp
+
+// Verification hooks (build tag verif): the square-root tables and internal steps.
+
+const VerifSqrtBlocks = sqrtParam_Blocks
+const VerifSqrtBlockSize = sqrtParam_BlockSize
+
+func VerifSqrtBlockEntry(i, j int) Element { return sqrtPrecomp_PrecomputedBlocks[i][j] }
+func VerifSqrtDyadicRoot(i int) Element    { return sqrtPrecomp_PrimitiveDyadicRoots[i] }
+func VerifSqrtLUT() map[uint16]uint {
+	out := make(map[uint16]uint, len(sqrtPrecomp_dlogLUT))
+	for k, v := range sqrtPrecomp_dlogLUT {
+		out[k] = v
+	}
+	return out
+}
+func VerifSqrtRelevantPowers(z *Element) (candidate, rootOfUnity Element) {
+	zc := *z
+	sqrtAlg_ComputeRelevantPowers(&zc, &candidate, &rootOfUnity)
+	return
+}
+func VerifInvSqrtEqDyadic(z *Element) bool { return invSqrtEqDyadic(z) }
